@@ -161,6 +161,50 @@ def _shard(shard, col: Collector):
                         for key, msg in check_triple(spec, vs[a], vs[b], vs[c]):
                             col.violation(key, "triple", msg, {"spec": spec, "a": vs[a], "b": vs[b], "c": vs[c]})
         col.count("triples", n * n * n)
+    elif kind == "misc":
+        import numpy as np
+        from artap.operators import ParetoDominance, EpsilonDominance
+        # (1) arguments are not modified; (2) two comparator objects with different epsilons used alternately answer as if alone;
+        # (3) the verdict does not depend on the numeric type of equal values (int / float / numpy scalars / negative zero)
+        vs = vectors(A5, 2)
+        e1, e2, pa = EpsilonDominance([0.1, 0.1]), EpsilonDominance([1e3]), ParetoDominance()
+        alone1 = EpsilonDominance([0.1, 0.1])
+        for p in vs:
+            for q in vs:
+                col.case()
+                lp, lq = list(p), list(q)
+                r1 = e1.compare(lp, lq)
+                r2 = e2.compare(lp, lq)
+                r3 = pa.compare(lp, lq)
+                if lp != list(p) or lq != list(q):
+                    col.violation("C01:compare:modifies-its-arguments", "misc", "compare changed its arguments %r %r -> %r %r" % (p, q, lp, lq), {"p": p, "q": q})
+                if r1 != alone1.compare(list(p), list(q)):
+                    col.violation("C01:epsilon:objects-influence-each-other", "misc",
+                                  "EpsilonDominance([0.1,0.1]).compare(%r, %r) = %r next to another comparator object, %r alone" % (p, q, r1, alone1.compare(list(p), list(q))), {"p": p, "q": q})
+                if p != q and (r3 != ref_dominance(p, q) or r2 != ref_dominance(p, q)) and p[:-1] != q[:-1]:
+                    col.violation("C01:interleaved:verdict", "misc", "interleaved comparators: pareto %r eps(1e3) %r, definition %r for %r %r" % (r3, r2, ref_dominance(p, q), p, q), {"p": p, "q": q})
+        types = (lambda v: int(v), lambda v: float(v), lambda v: np.float64(v), lambda v: np.float32(v), lambda v: np.int64(v))
+        base = [(a, b, f) for a in (0, 1, 2) for b in (0, 1, 2) for f in MARK]
+        for p in base:
+            for q in base:
+                exp = ref_dominance(p, q)
+                for tp in types:
+                    for tq in types:
+                        col.case()
+                        pp = [tp(p[0]), tp(p[1]), p[2]]
+                        qq = [tq(q[0]), tq(q[1]), q[2]]
+                        got = pa.compare(pp, qq)
+                        if got != exp:
+                            col.violation("C01:pareto:numeric-type", "misc", "compare(%r, %r) = %r, definition %r" % (pp, qq, got, exp), {"p": p, "q": q})
+        for p, q in (((-0.0, 1.0, True), (0.0, 1.0, True)), ((0.0, -0.0, False), (-0.0, 0.0, False)), ((-0.0, 0.0, True), (0.0, 1.0, True)),
+                     ((2.0 ** 53, 1.0, True), (2.0 ** 53 + 2.0, 1.0, True)), ((5e-324, 0.0, True), (0.0, 0.0, True)), ((-5e-324, 0.0, True), (-0.0, 0.0, True)),
+                     ((1.7976931348623157e308, 0.0, True), (-1.7976931348623157e308, 0.0, True))):
+            for a, b in ((p, q), (q, p)):
+                col.case()
+                col.nontrivial(("edge", a, b))
+                if pa.compare(list(a), list(b)) != ref_dominance(a, b):
+                    col.violation("C01:pareto:numeric-edge", "misc", "compare(%r, %r) = %r, definition %r" % (a, b, pa.compare(list(a), list(b)), ref_dominance(a, b)), {"p": a, "q": b})
+        col.sample({"kind": "argument immutability / independent comparator objects / numeric types and edge values"}, 1)
     elif kind == "laws":
         # Numeric markers (the comparator's documented reading: 0 = feasible, otherwise a degree of violation), both signs.
         # No reference verdict is demanded here - only the laws the statement names for ALL marker combinations:
@@ -249,6 +293,11 @@ def replay(sub, case):
         return check_pair(spec, t(case["p"]), t(case["q"]))
     if sub == "triple":
         return check_triple(spec, t(case["a"]), t(case["b"]), t(case["c"]))
+    if sub == "misc":
+        from artap.operators import ParetoDominance
+        p, q = t(case["p"]), t(case["q"])
+        got = ParetoDominance().compare(list(p), list(q))
+        return [] if got == ref_dominance(p, q) else [("C01:misc", "compare(%r,%r)=%r" % (p, q, got))]
     if sub == "lawpair":
         cmp_ = make_comparator(spec).compare
         p, q = t(case["p"]), t(case["q"])
@@ -286,13 +335,14 @@ def run(tier, seed):
         if tier == "thorough":
             shards += [("pairs", spec, A5, 3), ("pairs", spec, B2, 5), ("pairs", spec, B2, 6)]
     shards += [("pairs", "pareto", NEAR, 1), ("pairs", "pareto", NEAR, 2)]
+    shards += [("misc",)]
     shards += [("laws", "pareto", 1), ("laws", "pareto", 2), ("laws", "pareto", 3), ("laws", ("eps", [0.1, 0.1]), 2), ("laws", ("eps", 0.25), 3)]
     if tier == "thorough":
         shards += [("pairs", "pareto", NEAR, 3)]
     shards += [("built", V3, 1), ("built", V3, 2), ("built", B2, 3)]
     if tier == "thorough":
         shards += [("built", V3, 3)]
-    shards.sort(key=lambda s: -(len(s[-2]) ** s[-1] if s[0] in ("pairs", "built") else 10 ** 6))
+    shards.sort(key=lambda s: -(len(s[-2]) ** s[-1] if s[0] in ("pairs", "built") else 10 ** 6) if len(s) > 1 else -10 ** 7)
     col = run_shards(_shard, shards)
     extra = {"exhaustive": True,
              "alphabets": {"A5": A5, "V3": V3, "B2": B2, "markers": MARK, "epsilons": [repr(e) for e in EPS_LISTS]},
